@@ -1646,7 +1646,11 @@ func (s *BgpServer) handleFSMMessage(peer *peer, e *fsmMsg) {
 		conf.State.SessionState = oc.IntToSessionStateMap[int(nextState)]
 		peer.fsm.pConf.Update(&conf)
 
-		nextStateIdle := conf.GracefulRestart.State.PeerRestarting && nextState == bgp.BGP_FSM_IDLE
+		// RFC 4724 4.2: the routes retained for a restarting peer are only given up when the
+		// restart timer expires; any other move to Idle during the restart window (a failed
+		// reconnection attempt, an administrative disable) must not end the retention early.
+		nextStateIdle := conf.GracefulRestart.State.PeerRestarting && nextState == bgp.BGP_FSM_IDLE &&
+			e.StateReason != nil && e.StateReason.Type == fsmRestartTimerExpired
 		peer.fsm.lock.Unlock()
 
 		// PeerDown
